@@ -298,7 +298,8 @@ func (d *Decoder) readUntypedList(tag byte) (interface{}, error) {
 		it, err := d.ReadData()
 		if err != nil {
 			if err == io.EOF && isVariableArr {
-				continue
+				// 'Z' ends a variable-length list
+				break
 			}
 			return nil, newCodecError("readUntypedList", err)
 		}
